@@ -4,7 +4,7 @@
    every layer / every value a source ever reported). *)
 From Coq Require Import List NArith ZArith Bool.
 From Dials Require Export Base.Outcome Base.Runes Reflect.Ty Reflect.Ptrify Reflect.Heap Copy.DeepCopy Copy.Canon
-  Copy.DeepCopySpec Stack.Overlay Stack.StackProofs Stack.ComposeH Stack.ComposeHTyping Stack.History.
+  Copy.DeepCopySpec Stack.Overlay Stack.StackProofs Stack.ComposeH Stack.ComposeHTyping Stack.ComposeHAbs Stack.History.
 Import ListNotations.
 Open Scope N_scope.
 
@@ -67,6 +67,11 @@ Definition check (c : c02case) : N :=
               if spec then
                 match m with
                 | Done ((hm, _), dm) =>
+                    (* contents: for an alias-free spine of the defaults the tree value of the
+                       model's result is C01's `stack` of the tree values of the inputs *)
+                    let contents_ok := negb (cfg_ok fs && spine_alias_free hin fs d) ||
+                                       contents_agree fuel fs hin d layers hm dm in
+                    if negb contents_ok then 1 else
                     if canon_eqb (canon_of false fuel hm (HPtr (Some dm))) (canon_of false fuel H r1) then 0 else 1
                 | _ => 1
                 end
